@@ -1,7 +1,7 @@
 """C11 - predict_rank ranks agree with its probabilities and complement predict_draw."""
 import math
 
-from ..predprobe import gen_pred_case, call_pred, in01, alias_clause, scribble
+from ..predprobe import gen_pred_case, call_pred, in01, alias_clause, inplace_clause, scribble
 from ..rateprobe import exc_detail
 from ..util import KIND
 from ..refmodel import ref_predict
@@ -60,6 +60,7 @@ def probe_pr(ctx, payload):
     rs = [x[0] for x in res]
     ps = [x[1] for x in res]
     alias_clause(ctx, "pr", payload, case, "predict_rank", res, model, reg)
+    inplace_clause(ctx, "pr", payload, case, "predict_rank", model, reg)
     ctx.ev("rank-order")
     bad = None
     for i in range(k):
